@@ -29,6 +29,13 @@ BINOPS = {ast.Lt: "OpLt", ast.LtE: "OpLe", ast.Gt: "OpGt", ast.GtE: "OpGe", ast.
 DUNDERS = [("__lt__", "OpLt"), ("__le__", "OpLe"), ("__gt__", "OpGt"), ("__ge__", "OpGe"), ("__eq__", "OpEq"),
            ("__ne__", "OpNe"), ("__add__", "OpAdd"), ("__sub__", "OpSub"), ("__mul__", "OpMul"),
            ("__truediv__", "OpTrueDiv"), ("__floordiv__", "OpFloorDiv")]
+RDUNDERS = [("__radd__", "OpAdd"), ("__rsub__", "OpSub"), ("__rmul__", "OpMul"), ("__rtruediv__", "OpTrueDiv"),
+            ("__rfloordiv__", "OpFloorDiv")]
+INPLACE_DUNDERS = ["__iadd__", "__isub__", "__imul__", "__itruediv__", "__ifloordiv__", "__imod__", "__ipow__", "__iand__", "__ior__",
+                   "__ixor__", "__ilshift__", "__irshift__", "__imatmul__"]
+OTHER_OPERATOR_DUNDERS = ["__mod__", "__rmod__", "__pow__", "__rpow__", "__and__", "__rand__", "__or__", "__ror__", "__xor__", "__rxor__",
+                          "__lshift__", "__rlshift__", "__rshift__", "__rrshift__", "__matmul__", "__rmatmul__", "__divmod__",
+                          "__rdivmod__", "__neg__", "__pos__", "__abs__", "__invert__", "__getattr__", "__getattribute__"]
 OPERATOR_FUNCS = {"lt": "OpLt", "le": "OpLe", "gt": "OpGt", "ge": "OpGe", "eq": "OpEq", "ne": "OpNe"}
 
 PRELUDE = """(* operators a view answers itself, and where each one is routed *)
@@ -38,6 +45,9 @@ Inductive vroute :=
   | DoComparison (op : vbinop)      (* return self._do_comparison(other, operator.<op>)   [SubFieldView] *)
   | GridComparison (op : vbinop)    (* return self._do_comparison(other, "__<op>__")      [ScaledArrayView] *)
   | Inherited.                      (* not defined by the class *)
+Inductive rroute :=
+  | RAbsent                         (* the class does not define the reflected method *)
+  | RSwapped (op : vbinop).         (* return other <op> np.array(self) *)
 Inductive vreduce := RMax | RMin.
 Inductive red_route :=
   | RedMaterialised (r : vreduce)   (* return np.array(self).<r>(...) with the caller's arguments *)
@@ -83,6 +93,10 @@ def body_of(fn):
 #   2. a call `self.h(a, ..)` of a method h of the same class whose body is a single `return <expr>` is replaced by that
 #      expression (plain positional parameters, simple arguments, h not one of the methods the plugin reads by itself,
 #      h not defined by any other class of the module);
+#   2b. a statement `return self.h(a, ..)` (h as in 2, but of several statements every path of which ends in return/raise)
+#      is replaced by the statements of h with the parameters substituted (a tail call: nothing of the caller runs after
+#      it; only when no local of h has the name of a parameter or of a name used by the arguments);
+#      `getattr(E, "name")` with a constant identifier is `E.name`;
 #   3. `not (a in b)` = `a not in b`, `not (a is b)` = `a is not b`; `if not c: A else: B` = `if c: B else: A`;
 #   4. `if c: ..return/raise  else: E` = `if c: ..return/raise` followed by E (elif chains and nested else blocks become
 #      early returns);
@@ -167,6 +181,51 @@ class _InlineHelpers(ast.NodeTransformer):
         return _InlineHelpers(self.cls, self.mod, self.depth + 1).visit(expr)
 
 
+def _resolve_helper(call, cls, mod):
+    """the method h of `self.h(..)` when the call can be replaced by its body: -> (FunctionDef, {parameter: argument}) | None"""
+    f = call.func
+    if not (isinstance(f, ast.Attribute) and isinstance(f.value, ast.Name) and f.value.id == "self"
+            and f.attr not in OWN_METHODS and not (f.attr.startswith("__") and f.attr.endswith("__"))):
+        return None
+    found = [n for n in cls.body if isinstance(n, ast.FunctionDef) and n.name == f.attr]
+    if len(found) != 1 or found[0].decorator_list:
+        return None
+    if mod is not None:
+        for c in ast.walk(mod):
+            if isinstance(c, ast.ClassDef) and c is not cls and _binds(c, f.attr):
+                return None
+    h = found[0]
+    a = h.args
+    if a.posonlyargs or a.vararg or a.kwarg or a.kwonlyargs or a.defaults or a.kw_defaults:
+        return None
+    params = [x.arg for x in a.args]
+    if (not params or params[0] != "self" or len(params) - 1 != len(call.args) or call.keywords
+            or any(isinstance(x, ast.Starred) for x in call.args) or not all(_simple_arg(x) for x in call.args)):
+        return None
+    return h, dict(zip(params[1:], call.args))
+
+
+def _tail_inline(block, cls, mod, depth=0):
+    """step 2b on a statement list (top level and the branches of if statements)"""
+    out = []
+    for s in block:
+        if isinstance(s, ast.Return) and isinstance(s.value, ast.Call) and depth < 3:
+            r = _resolve_helper(s.value, cls, mod)
+            if r is not None:
+                h, mapping = r
+                hb = body_of(h)
+                assigned = {x.id for n in hb for x in ast.walk(n) if isinstance(x, ast.Name) and isinstance(x.ctx, (ast.Store, ast.Del))}
+                used = set(mapping) | {x.id for e in mapping.values() for x in ast.walk(e) if isinstance(x, ast.Name)}
+                if len(hb) > 1 and _terminates(hb) and not _has_nested_scope(hb) and not (assigned & used):
+                    sub = [_Subst(mapping).visit(copy.deepcopy(n)) for n in hb]
+                    out.extend(_tail_inline(sub, cls, mod, depth + 1))
+                    continue
+        if isinstance(s, ast.If):
+            s = ast.If(test=s.test, body=_tail_inline(s.body, cls, mod, depth), orelse=_tail_inline(s.orelse, cls, mod, depth))
+        out.append(s)
+    return out
+
+
 NEGATABLE = {ast.In: ast.NotIn, ast.NotIn: ast.In, ast.Is: ast.IsNot, ast.IsNot: ast.Is}
 
 
@@ -176,6 +235,15 @@ class _Cleanup(ast.NodeTransformer):
         if node.value is None:
             return None
         return ast.Assign(targets=[node.target], value=node.value)
+
+    def visit_Call(self, node):
+        self.generic_visit(node)
+        if (isinstance(node.func, ast.Name) and node.func.id == "getattr" and len(node.args) == 2 and not node.keywords
+                and isinstance(node.args[1], ast.Constant) and isinstance(node.args[1].value, str)
+                and node.args[1].value.isidentifier() and not __import__("keyword").iskeyword(node.args[1].value)
+                and not (node.args[1].value.startswith("__") and not node.args[1].value.endswith("__"))):
+            return ast.Attribute(value=node.args[0], attr=node.args[1].value, ctx=ast.Load())
+        return node
 
     def visit_UnaryOp(self, node):
         self.generic_visit(node)
@@ -375,6 +443,7 @@ def norm(stmts, params=(), cls=None, mod=None):
     if _has_nested_scope(body):
         return body                      # not understood: left as written
     if cls is not None:
+        body = _tail_inline(body, cls, mod)
         body = [_InlineHelpers(cls, mod).visit(s) for s in body]
     body = [x for x in (_Cleanup().visit(s) for s in body) if x is not None]
     body = _flatten(body)
@@ -485,6 +554,23 @@ def av_route(fn):
     if not same_expr(left, "np.array(self)") or not same_expr(right, "other") or type(op) not in BINOPS:
         raise Untranslatable(f"{fn.name}: {ast.unparse(e)} is not np.array(self) <op> other")
     return f"Materialised {BINOPS[type(op)]}"
+
+
+def reflected_route(fn):
+    """`return other <op> np.array(self)`"""
+    if argnames(fn) != (["self", "other"], None, None):
+        raise Untranslatable(f"{fn.name}: parameters {argnames(fn)}")
+    b = norm_fn(fn)
+    if len(b) != 1 or not isinstance(b[0], ast.Return) or not isinstance(b[0].value, ast.BinOp):
+        raise Untranslatable(f"{fn.name}: not a single return of a binary operation")
+    e = b[0].value
+    if not same_expr(e.left, "other") or not same_expr(e.right, "np.array(self)") or type(e.op) not in BINOPS:
+        raise Untranslatable(f"{fn.name}: {ast.unparse(e)} is not other <op> np.array(self)")
+    return f"RSwapped {BINOPS[type(e.op)]}"
+
+
+def rtable(name, rows):
+    return f"Definition {name} : list (string * rroute) := [\n  " + ";\n  ".join(f"({qs(d)}, {r})" for d, r in rows) + "].\n"
 
 
 def sfv_route(fn):
@@ -607,6 +693,29 @@ def gen_views(repo):
                 "Definition av_ufunc_passes_keywords : bool := true.\n"
                 "Definition av_function_passes_keywords : bool := true.\n")
     o.add("av_protocols", av_protocols)
+
+    # ------------------------------------------------------------ the view as right operand, augmented assignment
+    def operator_surface():
+        """reflected arithmetic methods per class; no class defines an in-place operator or any other operator method"""
+        if bases(av) not in (["abc.ABC"], ["ABC"]):
+            raise Untranslatable(f"ArrayView bases {bases(av)}")
+        out = ""
+        allnames = {d for d, _ in RDUNDERS} | set(INPLACE_DUNDERS) | set(OTHER_OPERATOR_DUNDERS)
+        for cls, nm in ((av, "av_rops"), (sfv, "sfv_rops"), (sav, "sav_rops")):
+            no_assignment_of(cls, allnames)
+            for d in INPLACE_DUNDERS + OTHER_OPERATOR_DUNDERS:
+                if any(isinstance(n, (ast.FunctionDef, ast.AsyncFunctionDef, ast.ClassDef)) and n.name == d for n in cls.body):
+                    raise Untranslatable(f"{cls.name} defines {d}")
+            rows = []
+            for d, _ in RDUNDERS:
+                fn = method(cls, d)
+                rows.append((d, "RAbsent" if fn is None else reflected_route(fn)))
+            out += rtable(nm, rows) + "\n"
+        return (out + "(* no view class defines an in-place operator (__iadd__ ...): `v op= c` is python's `v = v op c`;\n"
+                      "   nor any other operator method (%, **, &, |, ^, <<, >>, @, divmod, unary -, +, abs, ~), nor __getattr__ *)\n"
+                      "Definition views_inplace_absent : bool := true.\n"
+                      "Definition views_operator_surface_closed : bool := true.\n")
+    o.add("operator_surface", operator_surface)
 
     # ------------------------------------------------------------ SubFieldView
     def sfv_ops():
